@@ -139,13 +139,24 @@ class Plane(GeoBody):
 
     def __hash__(self):
         """return the hash of a Plane"""
+        # Equal planes may have opposite normals, so hash the orientation
+        # whose first significant normal component is positive.
+        n = self.n
+        d = self.n * self.p.pv()
+        for c in n:
+            if abs(c) > get_eps():
+                if c < 0:
+                    n = -n
+                    d = -d
+                break
+        sig = get_sig_figures()
         return hash(
             (
                 "Plane",
-                round(self.n[0], SIG_FIGURES),
-                round(self.n[1], SIG_FIGURES),
-                round(self.n[2], SIG_FIGURES),
-                round(self.n * self.p.pv(), SIG_FIGURES),
+                round(n[0], sig),
+                round(n[1], sig),
+                round(n[2], sig),
+                round(d, sig),
             )
         )
 
